@@ -419,6 +419,70 @@ func genC17(tier, out string, sum *Summary) {
 			}
 		}
 	}
+	// fused and unfused spellings agree on WHICH elements a condition or selector is evaluated for, and so on
+	// whether an error is raised: null elements, conditions and selectors that fail on some element types, subjects
+	// that are not arrays
+	{
+		conds := []string{"length(t) > `0`", "starts_with(n, 'A')", "contains(t, 'x')", "$undef", "abs(v) > `0`", "v > `0`", "t", "@", "!@", "n == 'Al'", "length(@) > `0`", "t[0] == 'x'", "v / v == `1`", "keys(@)", "to_number(n)"}
+		sels := []string{"n", "t[0]", "length(n)", "abs(v)", "[n, v]", "{k: n}", "t[*]", "*", "[0]", "to_string(@)", "n.x", "v / v"}
+		docs := []string{`{"p": [{"n": "Al", "t": ["x"], "v": 1}, null, {"n": "Bo", "t": [], "v": 0}, {"n": null, "t": null, "v": null}, "s", 3, [1], {}]}`,
+			`{"p": [null, null]}`, `{"p": [{"n": "Al", "t": ["x"], "v": 2}]}`, `{"p": []}`, `{"p": null}`, `{"p": {"n": "Al", "t": ["x"], "v": 1}}`, `{"p": "Al"}`, `{"p": [[{"n": "Al", "t": ["x"], "v": 1}, null], null, []]}`}
+		k := 0
+		for _, cnd := range conds {
+			for _, sel := range sels {
+				k++
+				if tier != "thorough" && k%3 != 0 {
+					continue
+				}
+				pairs := [][2]string{
+					{"p[?" + cnd + "]." + sel, "p[?" + cnd + "] | [*]." + sel},
+					{"p[?" + cnd + "]." + sel, "(p[?" + cnd + "])[*]." + sel},
+					{"p | [?" + cnd + "]." + sel, "p | [?" + cnd + "] | [*]." + sel},
+					{"p[]." + sel, "p[] | [*]." + sel},
+					{"p[*]." + sel, "p[*] | [*]." + sel},
+					{"p[1:]." + sel, "p[1:] | [*]." + sel},
+					{"p[::-1]." + sel, "p[::-1] | [*]." + sel},
+					{"p[*][?" + cnd + "]", "p[*] | [*][?" + cnd + "]"},
+					{"p[][?" + cnd + "]." + sel, "p[] | [*][?" + cnd + "]." + sel},
+					{"p[?" + cnd + "][?" + cnd + "]", "p[?" + cnd + "] | [*][?" + cnd + "]"},
+					{"p[*]." + sel, "map(&" + sel + ", p)[*]"},
+				}
+				for _, pr := range pairs {
+					if strings.HasPrefix(sel, "[") && strings.HasSuffix(pr[0], "."+sel) && !strings.Contains(sel, ",") {
+						continue // ".[0]" is a multi-select of a literal index, not an index
+					}
+					for _, d := range docs {
+						doc := jsonDoc(d)
+						if _, isStr := doc.(map[string]any)["p"].(string); isStr && strings.Contains(pr[0], ":") {
+							continue // a slice of a string is a string, not a projection
+						}
+						if strings.HasPrefix(pr[1], "map(") && (sel[0] == '[' || sel[0] == '{') {
+							continue // a multi-select applied to a null element (corpus: null | [@] is [null])
+						}
+						if strings.HasPrefix(pr[1], "map(") {
+							if a, ok := doc.(map[string]any)["p"].([]any); !ok || a == nil {
+								continue // map() demands an array
+							}
+						}
+						ol, or_ := search(pr[0], doc), search(pr[1], doc)
+						c.sum.count("fused-faults/" + ol.Kind)
+						// "[*]" skips null ELEMENTS before it evaluates anything, a flatten or slice projection evaluates its
+						// right-hand side on them: only the filter spellings must agree on errors too
+						strict := map[string]bool{"n": true, "t[0]": true, "t[*]": true, "*": true, "n.x": true}[sel]
+						if !strict && !(ol.Kind == "val" && or_.Kind == "val" && !strings.Contains(d, "null")) {
+							continue // a right-hand side that makes something of null (a value or an error) tells the spellings apart
+						}
+						if !strings.Contains(pr[0], "[?") && (ol.Kind == "err" || or_.Kind == "err") {
+							continue
+						}
+						if !sameObs(ol, or_, strings.Contains(sel, "*")) {
+							c.sum.direct("identity fused-faults", pr[0], doc, fmt.Sprintf("%q gives %s but %q gives %s", pr[0], describe(ol), pr[1], describe(or_)))
+						}
+					}
+				}
+			}
+		}
+	}
 	c.sh.Flush()
 	sum.Cases = c.sh.total
 	sum.Shards = c.sh.files
